@@ -1068,3 +1068,87 @@ M('C19','silent-guard-literal-form','core/safemath/safe_math.go','''	if minusOne
 		return -x, nil
 	}
 ''','',silent=True)
+
+# ---------------- C13
+M('C13','replace-raw-payload','ds/reactive/set_impl.go','''	addedElements := elements.Filter(func(element ElementType) bool { return !s.value.Has(element) })
+
+	return ds.NewSetMutations[ElementType]().WithAddedElements(addedElements).WithDeletedElements(s.value.Replace(elements)), s.uniqueUpdateID.Next(), s.updateCallbacks.Values()''','''	return ds.NewSetMutations[ElementType](elements.ToSlice()...).WithDeletedElements(s.value.Replace(elements)), s.uniqueUpdateID.Next(), s.updateCallbacks.Values()''','payload/applied-diff ds/reactive.set.replace')
+M('C13','compute-invoke-unlocked','ds/reactive/variable_impl.go','''		if registeredCallback.LockExecution(updateID) {
+			registeredCallback.Invoke(previousValue, newValue)
+			registeredCallback.UnlockExecution()
+		}''','''		_ = updateID
+		registeredCallback.Invoke(previousValue, newValue)''','cb/invoke-under-execution-lock Invoke of registeredCallback in ds/reactive.variable.Compute')
+M('C13','apply-no-unlock','ds/reactive/set_impl.go','''	for _, registeredCallback := range registeredCallbacks {
+		if registeredCallback.LockExecution(updateID) {
+			registeredCallback.Invoke(appliedMutations)
+			registeredCallback.UnlockExecution()
+		}
+	}
+
+	return appliedMutations
+}
+
+// Compute''','''	for _, registeredCallback := range registeredCallbacks {
+		if registeredCallback.LockExecution(updateID) {
+			registeredCallback.Invoke(appliedMutations)
+		}
+	}
+
+	return appliedMutations
+}
+
+// Compute''','cb/invoke-under-execution-lock Invoke of registeredCallback in ds/reactive.set.Apply')
+M('C13','compute-no-order-mutex','ds/reactive/variable_impl.go','''func (v *variable[Type]) Compute(computeFunc func(currentValue Type) Type) (previousValue Type) {
+	v.updateOrderMutex.Lock()
+	defer v.updateOrderMutex.Unlock()
+''','''func (v *variable[Type]) Compute(computeFunc func(currentValue Type) Type) (previousValue Type) {
+''','writer/notify-under-order-mutex')
+M('C13','onupdate-unlock-before-register','ds/reactive/variable_impl.go','''	callbackElement := r.registeredCallbacks.PushBack(createdCallback)
+
+	// grab the execution lock before we unlock the mutex, so the callback cannot be triggered by another
+	// thread updating the value before we have called the callback with the initial value
+	createdCallback.LockExecution(r.uniqueUpdateID)
+	defer createdCallback.UnlockExecution()
+
+	r.valueMutex.Unlock()
+''','''	callbackElement := r.registeredCallbacks.PushBack(createdCallback)
+	updateID := r.uniqueUpdateID
+	r.valueMutex.Unlock()
+
+	createdCallback.LockExecution(updateID)
+	defer createdCallback.UnlockExecution()
+''','reg/hand-off ds/reactive.readableVariable.OnUpdate')
+M('C13','unsubscribe-no-mark','ds/reactive/set_impl.go','''		r.updateCallbacks.Remove(callbackElement)
+
+		createdCallback.MarkUnsubscribed()''','''		r.updateCallbacks.Remove(callbackElement)''','unsub/remove-own-and-mark ds/reactive.readableSet.OnUpdate')
+M('C13','lockexecution-no-dedupe','ds/reactive/utils.go','if c.unsubscribed || updateID != 0 && updateID == c.lastUpdate {','if c.unsubscribed {','cb/lock-execution-contract')
+M('C13','lockexecution-false-holding','ds/reactive/utils.go','''		c.executionMutex.Unlock()
+
+		return false''','''		return false''','cb/lock-execution-contract')
+M('C13','updatevalue-snapshot-outside','ds/reactive/variable_impl.go','''	v.valueMutex.Lock()
+	defer v.valueMutex.Unlock()
+
+	if previousValue, newValue = v.value, v.transformationFunc(v.value, newValueGenerator(v.value)); newValue != previousValue {
+		v.value = newValue
+		triggerID = v.uniqueUpdateID.Next()
+		callbacksToTrigger = v.registeredCallbacks.Values()
+	}
+''','''	v.valueMutex.Lock()
+
+	if previousValue, newValue = v.value, v.transformationFunc(v.value, newValueGenerator(v.value)); newValue != previousValue {
+		v.value = newValue
+		triggerID = v.uniqueUpdateID.Next()
+		v.valueMutex.Unlock()
+		callbacksToTrigger = v.registeredCallbacks.Values()
+	} else {
+		v.valueMutex.Unlock()
+	}
+''','writer/atomic-change-id-snapshot')
+M('C13','get-nolock','ds/reactive/variable_impl.go','''func (r *readableVariable[Type]) Get() Type {
+	r.valueMutex.RLock()
+	defer r.valueMutex.RUnlock()
+''','''func (r *readableVariable[Type]) Get() Type {
+''','lock/guarded-by readableVariable.value in ds/reactive.readableVariable.Get')
+M('C11','replace-returns-previous','ds/set_impl.go','''		// elements that are part of the new set were not removed
+		removedElements.Delete(element)
+''','','set/exact-diff ds.set.Replace')
